@@ -699,7 +699,7 @@ func checkMain(args []string) int {
 	}
 	inconclusive := agg.unsup + agg.unknown + leftover + len(agg.errs)
 	for k, v := range agg.stopReasons {
-		if strings.Contains(k, "unknown") {
+		if strings.Contains(k, "unknown") || strings.Contains(k, "inconclusive") {
 			inconclusive += v
 		}
 	}
